@@ -11,7 +11,7 @@ Legs (all decided by z3 over the real code under SX; ref decoder = ref/sourcemap
  E  whole runs of write(normalize in {False, True}) from the initial state on streams of <= k fragments, decoded
     from scratch: base case of W's induction and the composition W;N, plus encode_sourcemap plumbing.
 """
-import sys, os, time, itertools
+import sys, os, re, time, itertools
 import z3
 from .. import boot, common, sx, symtext
 from ..sx import SIntZ, SBool, SEnum
@@ -410,6 +410,45 @@ def _classify(kind, args, msg):
     return '%s: %s' % (kind, msg)
 
 
+K_SPLIT_CRLF = 'C: the CR and the LF of one CRLF arrive in two fragments and are counted as two line breaks'
+C_TEXTS = ['a', 'ab\n', 'a\r', 'a\rb', 'a\r\nb', '\r', '\n', '\r\n', '/* a\rb\nc */', 'x\n\ny', '', 'a\n\rb', '\rb']
+
+
+def _c_streams():
+    frs = []
+    for i, t in enumerate(C_TEXTS):
+        frs.append((t, 1 + i % 3, 1 + (i * 7) % 5, None, 'src%d.js' % (i % 2)))
+        frs.append((t, None, None, None, None))
+    frs.append(('n', 3, 9, 'orig', 'src0.js'))
+    out = []
+    for a in frs:
+        out.append(((a,), False))
+        for b in frs:
+            out.append(((a, b, ('z', 7, 7, None, 'src1.js')), False))
+            out.append(((a, b, ('z', 7, 7, None, 'src1.js')), True))
+    return out
+
+
+C_STREAMS = _c_streams()
+
+
+def _cjob(chunk):
+    import io
+    import calmjs.parse.sourcemap as sm
+    bad, n = [], 0
+    for frs, nz in chunk:
+        n += 1
+        out = io.StringIO()
+        try:
+            mappings, sources, names = sm.write(list(frs), out, normalize=nz)
+            ok, msg = sourcemap_ref.check_stream(list(frs), out.getvalue(), mappings, sources, names)
+        except Exception as e:
+            ok, msg = False, 'exception %s: %s' % (type(e).__name__, e)
+        if not ok:
+            bad.append((frs, nz, msg))
+    return n, bad
+
+
 def replay(d):
     """plain package: concrete stream -> write -> reference decode -> compare"""
     import io
@@ -486,6 +525,26 @@ def main():
                 run.violation(key, '%s; task %r; %s' % (msg, args, detail[:400]), rpd)
             else:
                 run.inconclusive_('counterexample did not reproduce on the plain package: %s %r %s' % (msg, args, detail[:300]))
+    # ---- leg C (concrete, replay level): streams whose texts carry LF / CR / CRLF in every position of a chunk, through the plain
+    # package and the reference decoder.  It validates the SymText model of the symbolic legs (which line breaks a chunk has) and
+    # is the fall-back when a change makes the symbolic legs inconclusive (an operation on text the models do not cover).
+    cres = common.pmap(_cjob, [C_STREAMS[i::32] for i in range(32)])
+    nconc = sum(r[0] for r in cres)
+    for n, bad in cres:
+        for frs, nz, msg in bad:
+            key = 'C: ' + re.sub(r"#\d+|%r|'(?:[^'\\]|\\.)*'|\(.*?\)|\d+", '..', msg)[:90]
+            if any(a[0].endswith('\r') and b[0].startswith('\n') for a, b in zip(frs, frs[1:])):
+                key = K_SPLIT_CRLF
+            if key in seen:
+                continue
+            seen.add(key)
+            rpd = {'property': 'C09', 'input': {'fragments': [list(f) for f in frs], 'normalize': nz}, 'law': msg}
+            ok, detail = rp.run_in_subprocess(rpd)
+            if ok:
+                run.violation(key, detail[:500], rpd)
+            else:
+                run.inconclusive_('concrete stream failure did not reproduce: %s' % msg[:200])
+    run.leg('C_concrete_streams', streams=nconc)
     run.coverage.update({
         'explanation': 'SX symbolic execution of the real sourcemap.write (one inductive step from an arbitrary valid writer state per '
                        'fragment shape; whole runs from the initial state), normalize_mapping_line/normalize_mappings (bounded line length, '
